@@ -18,6 +18,7 @@ import (
 	"strings"
 	"time"
 
+	"github.com/getlantern/goexpr"
 	"github.com/getlantern/zenodb"
 	"github.com/getlantern/zenodb/common"
 	"github.com/getlantern/zenodb/core"
@@ -321,6 +322,16 @@ func shapeOf(sqlStr string, t *jTable, partBy []string) (string, error) {
 	if s := q.FromSubQuery; s != nil {
 		subbad = len(s.OrderBy) > 0 || s.Crosstab != nil || s.Limit > 0 || s.HasLimit || s.Offset > 0
 	}
+	nested := false
+	for s := q.FromSubQuery; s != nil; s = s.FromSubQuery {
+		if s.Where != nil {
+			s.Where.WalkLists(func(l goexpr.List) {
+				if _, ok := l.(*sql.SubQuery); ok {
+					nested = true
+				}
+			})
+		}
+	}
 	tgb := "None"
 	if t.GroupBy != nil {
 		var ps []int
@@ -333,8 +344,8 @@ func shapeOf(sqlStr string, t *jTable, partBy []string) (string, error) {
 	for _, k := range partBy {
 		pk = append(pk, code(k))
 	}
-	return fmt.Sprintf("{| pq_crosstab := %s; pq_subbad := %s; pq_levels := %s; pq_table_gb := %s; pq_pk := %s |}",
-		gbool(q.Crosstab != nil), gbool(subbad), glist(levels), tgb, natl(pk)), nil
+	return fmt.Sprintf("{| pq_crosstab := %s; pq_subbad := %s; pq_nested_subq := %s; pq_levels := %s; pq_table_gb := %s; pq_pk := %s |}",
+		gbool(q.Crosstab != nil), gbool(subbad), gbool(nested), glist(levels), tgb, natl(pk)), nil
 }
 
 // planKind looks at the root of the plan (below order/limit/offset): a cluster flat source there means that the whole
@@ -448,7 +459,7 @@ func runPlanCase(e *Env, c *jPlanCase) error {
 		e.Count("plan_" + q.Plan)
 		shape, serr := shapeOf(q.SQL, t, c.PartBy)
 		if serr != nil {
-			shape = "{| pq_crosstab := false; pq_subbad := false; pq_levels := []; pq_table_gb := None; pq_pk := [] |}"
+			shape = "{| pq_crosstab := false; pq_subbad := false; pq_nested_subq := false; pq_levels := []; pq_table_gb := None; pq_pk := [] |}"
 			q.Plan = ""
 		}
 		q.Shape = shape
